@@ -261,6 +261,7 @@ func ttGenBranch(rng *rand.Rand, withDelete bool) ttParams {
 			}
 		}
 	}
+	p.LazySub = rng.IntN(2) == 0
 	return p
 }
 
@@ -312,6 +313,16 @@ func ttAnchors() []core.Case {
 		{Kind: "delete", Doc: 0},
 		{Kind: "update", Doc: 1, W: map[string]any{"n": 2, "s": "z"}},
 		{Kind: "update", Doc: 1, W: map[string]any{"n": 3}},
+	}})
+	// a local commit whose subscription event is evaluated after a concurrent commit of another node
+	// has been merged next to it (two heads): the result must be the state of the local commit
+	add(ttParams{Config: "plain", Nodes: 2, LazySub: true, Script: []ttOp{
+		{Kind: "create", Node: 0, Doc: 0, W: map[string]any{"name": "a", "n": 1, "s": "x"}},
+		{Kind: "deliver", Node: 1, Src: 0, Doc: 0},
+		{Kind: "update", Node: 0, Doc: 0, W: map[string]any{"n": 2, "s": "local"}},
+		{Kind: "update", Node: 1, Doc: 0, W: map[string]any{"n": 4, "s": "remote", "i": 2}},
+		{Kind: "deliver", Node: 0, Src: 1, Doc: 0},
+		{Kind: "update", Node: 0, Doc: 0, W: map[string]any{"n": 1, "i": 1}},
 	}})
 	// two writers, exchange, merge commit with two parents, further writes
 	add(ttParams{Config: "plain", Nodes: 2, Script: []ttOp{
@@ -530,8 +541,16 @@ func runTimeTravel(ctx context.Context, c core.Case, r *core.Rec) {
 		}
 	}()
 	t.colID = t.nodes[0].Col(ctx, "Doc").Version().CollectionID
-	if p.Nodes == 1 {
-		t.sub = ttOpenSub(ctx, t.nodes[0], p.LazySub)
+	// node 0 is observed by a subscription in linear AND in branching histories: in a branching
+	// history read lazily, the event of a local commit is evaluated when commits of other nodes have
+	// been merged next to it (the document has several heads) - the result must still be the state
+	// of the commit that triggered it.
+	t.sub = ttOpenSub(ctx, t.nodes[0], p.LazySub)
+	if p.Nodes > 1 {
+		r.Count("branching_histories_with_subscription", 1)
+		if p.LazySub {
+			r.Count("branching_histories_with_lazy_subscription", 1)
+		}
 	}
 	for i, op := range p.Script {
 		t.step(i, op)
@@ -1228,7 +1247,7 @@ func init() {
 			"non-trivial = >=3 commits and a counter field written; distinct by (kind, configuration, per-commit (document, parent count, fields written) sequence).",
 		Cases:       ttCases,
 		Run:         runTimeTravel,
-		Floors:      []string{"versioned_reads", "counter_history_len_ge4", "branching_histories", "merge_commit_reads", "subscription_results", "subscription_results_evaluated_after_later_commits", "single_head_reads", "null_write_reads", "float_counter_reads", "delete_commit_reads", "mid_history_reads", "filtered_versioned_reads_on_indexed_field", "nontrivial_histories"},
+		Floors:      []string{"versioned_reads", "counter_history_len_ge4", "branching_histories", "merge_commit_reads", "subscription_results", "subscription_results_evaluated_after_later_commits", "single_head_reads", "null_write_reads", "float_counter_reads", "delete_commit_reads", "mid_history_reads", "filtered_versioned_reads_on_indexed_field", "nontrivial_histories", "branching_histories_with_lazy_subscription"},
 		CaseTimeout: 12 * time.Minute,
 		Assumptions: []string{
 			"after a local write the writer's merged set for the document is exactly ancestors(c) ∪ {c}, so its ordinary query right after the write is the state of commit c",
